@@ -1,7 +1,448 @@
-//! C13 — not implemented yet.
+//! C13 — aggregations and suggestions do not depend on paging.
+//! Engine: inputmc aggs-paging — C12 worlds whose query has >= 4 matches x 6 queries x one request
+//! carrying 7 aggregation trees and 2 completion suggesters; variants: every page of cursor walks
+//! with page size 1,2,3 (the first pages are the limit 1 / 2 / 3 variants), limit n, 3 sort plans,
+//! 3 execution strategies, return_hits off, explain, profile and rescore on.
+//! Oracle: `aggregations` and `suggest` of every variant equal those of the reference variant
+//! (first page, limit = n, bm25, default sort).
+
+use std::collections::{BTreeMap, BTreeSet};
+
+use rayon::prelude::*;
+use searchlite_core::api::types::{ExecutionStrategy, RescoreRequest, SearchRequest, SortSpec};
+use searchlite_core::api::{IndexReader, SearchResult};
+use serde_json::{json, Value};
+
+use vcore::ev::Reporter;
+use vcore::inp::*;
+use vcore::world::*;
+
+use crate::c12::{canon, corpora, diff, expect, mk_world, replay_with, Flags, MDoc, QSpec};
 use crate::Ctx;
 
-pub fn run(_ctx: &Ctx) -> i32 {
-  eprintln!("C13: check not implemented");
-  2
+pub const SIG_CURSOR: &str = "C13-aggs-exclude-docs-before-cursor";
+pub const SIG_SCORE0: &str = "C13-top-hits-score-zero-when-request-sort-has-no-score";
+
+fn queries() -> Vec<QSpec> {
+  vec![
+    QSpec { name: "match_all", query: json!({"type": "match_all"}), filter: None, const_score: true },
+    QSpec { name: "a", query: json!("a"), filter: None, const_score: false },
+    QSpec { name: "b", query: json!("b"), filter: None, const_score: false },
+    QSpec { name: "a b", query: json!("a b"), filter: None, const_score: false },
+    QSpec { name: "match_all+kw=y", query: json!({"type": "match_all"}), filter: Some(json!({"KeywordEq": {"field": "kw", "value": "y"}})), const_score: true },
+    QSpec { name: "a+n in 1..3", query: json!("a"), filter: Some(json!({"I64Range": {"field": "n", "min": 1, "max": 3}})), const_score: false },
+  ]
+}
+
+/// Aggregation trees without any option that C12 found to be applied per segment, so that the
+/// C12 oracle can be used by the classifier.
+fn agg_trees() -> Value {
+  json!({
+    "t": {"type": "terms", "field": "kw"},
+    "h": {"type": "histogram", "field": "f", "interval": 1.0, "min_doc_count": 1, "aggs": {"s": {"type": "stats", "field": "n"}}},
+    "r": {"type": "range", "field": "f", "keyed": true, "ranges": [{"key": "low", "to": 0.75}, {"key": "mid", "from": 0.75, "to": 2.25}, {"key": "high", "from": 1.75}], "aggs": {"vc": {"type": "value_count", "field": "f"}}},
+    "fl": {"type": "filter", "filter": {"KeywordEq": {"field": "kw", "value": "x"}}, "aggs": {"t2": {"type": "terms", "field": "kw2"}}},
+    "m": {"type": "extended_stats", "field": "f"},
+    "c": {"type": "composite", "size": 10, "sources": [{"type": "terms", "name": "k", "field": "kw"}], "aggs": {"card": {"type": "cardinality", "field": "kw2"}}},
+    "th": {"type": "top_hits", "size": 2, "sort": [{"field": "n", "order": "asc"}]}
+  })
+}
+
+fn suggesters() -> Value {
+  json!({
+    "sa": {"type": "completion", "field": "body", "prefix": "a", "size": 5},
+    "sb": {"type": "completion", "field": "kw", "prefix": "x", "size": 1}
+  })
+}
+
+fn sort_plans() -> Vec<Value> {
+  vec![json!([]), json!([{"field": "n", "order": "asc"}]), json!([{"field": "kw", "order": "desc"}, {"field": "_score"}])]
+}
+
+const EXECS: [&str; 3] = ["bm25", "wand", "bmw"];
+
+fn rescore_json() -> Value {
+  json!({"window_size": 2, "query": {"type": "term", "field": "body", "value": "b"}, "score_mode": "total"})
+}
+
+#[derive(Clone, Debug)]
+struct Variant {
+  exec: usize,
+  sort: usize,
+  /// page size (limit)
+  limit: usize,
+  /// walk all pages (else only the first)
+  walk: bool,
+  return_hits: bool,
+  explain: bool,
+  profile: bool,
+  rescore: bool,
+}
+
+impl Variant {
+  fn to_json(&self, page: usize) -> Value {
+    json!({"execution": EXECS[self.exec], "sort": sort_plans()[self.sort], "limit": self.limit, "page": page, "return_hits": self.return_hits, "explain": self.explain, "profile": self.profile, "rescore": self.rescore})
+  }
+  fn from_json(v: &Value) -> (Variant, usize) {
+    let sp = sort_plans();
+    (
+      Variant {
+        exec: EXECS.iter().position(|e| Some(*e) == v["execution"].as_str()).unwrap_or(0),
+        sort: sp.iter().position(|s| s == &v["sort"]).unwrap_or(0),
+        limit: v["limit"].as_u64().unwrap_or(1) as usize,
+        walk: true,
+        return_hits: v["return_hits"].as_bool().unwrap_or(true),
+        explain: v["explain"].as_bool().unwrap_or(false),
+        profile: v["profile"].as_bool().unwrap_or(false),
+        rescore: v["rescore"].as_bool().unwrap_or(false),
+      },
+      v["page"].as_u64().unwrap_or(1) as usize,
+    )
+  }
+}
+
+fn variants(n: usize) -> Vec<Variant> {
+  let base = Variant { exec: 0, sort: 0, limit: n, walk: false, return_hits: true, explain: false, profile: false, rescore: false };
+  let mut v = Vec::new();
+  for exec in 0..3 {
+    for sort in 0..3 {
+      v.push(Variant { exec, sort, ..base.clone() });
+      for p in 1..=3 {
+        v.push(Variant { exec, sort, limit: p, walk: true, ..base.clone() });
+      }
+    }
+  }
+  v.push(Variant { return_hits: false, ..base.clone() });
+  v.push(Variant { return_hits: false, limit: 1, ..base.clone() });
+  v.push(Variant { explain: true, ..base.clone() });
+  v.push(Variant { explain: true, limit: 2, walk: true, ..base.clone() });
+  v.push(Variant { profile: true, ..base.clone() });
+  v.push(Variant { profile: true, limit: 2, walk: true, exec: 1, ..base.clone() });
+  v.push(Variant { rescore: true, ..base.clone() });
+  v.push(Variant { rescore: true, limit: 2, walk: true, ..base.clone() });
+  v.push(Variant { rescore: true, explain: true, profile: true, limit: 1, walk: true, exec: 2, sort: 2, ..base.clone() });
+  v
+}
+
+struct Parsed {
+  tmpl: SearchRequest,
+  sorts: Vec<Vec<SortSpec>>,
+  execs: Vec<ExecutionStrategy>,
+  rescore: RescoreRequest,
+}
+
+fn parse(q: &QSpec) -> Parsed {
+  let mut r = q.request_json(1);
+  r["aggs"] = agg_trees();
+  r["suggest"] = suggesters();
+  Parsed {
+    tmpl: req(r),
+    sorts: sort_plans().into_iter().map(|s| serde_json::from_value(s).expect("sort")).collect(),
+    execs: EXECS.iter().map(|e| serde_json::from_value(json!(e)).expect("exec")).collect(),
+    rescore: serde_json::from_value(rescore_json()).expect("rescore"),
+  }
+}
+
+fn request(p: &Parsed, v: &Variant, cursor: Option<String>) -> SearchRequest {
+  let mut r = p.tmpl.clone();
+  r.limit = v.limit;
+  r.execution = p.execs[v.exec].clone();
+  r.sort = p.sorts[v.sort].clone();
+  r.return_hits = v.return_hits;
+  r.explain = v.explain;
+  r.profile = v.profile;
+  r.rescore = if v.rescore { Some(p.rescore.clone()) } else { None };
+  r.cursor = cursor;
+  r
+}
+
+fn observable(res: &SearchResult) -> (Value, Value) {
+  (serde_json::to_value(&res.aggregations).unwrap(), serde_json::to_value(&res.suggest).unwrap())
+}
+
+/// Pages of a variant: Ok(list of results) or Err(message) when a request fails.
+fn run_variant(reader: &IndexReader, p: &Parsed, v: &Variant, n: usize) -> Result<Vec<SearchResult>, String> {
+  let mut pages = Vec::new();
+  let mut cursor: Option<String> = None;
+  loop {
+    let res = search_caught(reader, &request(p, v, cursor.clone()))?;
+    let next = res.next_cursor.clone();
+    pages.push(res);
+    if !v.walk || next.is_none() || pages.len() > n + 2 {
+      break;
+    }
+    cursor = next;
+  }
+  Ok(pages)
+}
+
+/// Defect models.  H12 (SIG_CURSOR): the page's aggregations are what the C12 oracle computes over
+/// only the documents after the cursor position, i.e. over a proper suffix `order[j..]` of the
+/// hit order of the same sort plan (j = number of hits on the earlier pages; with rescore, which
+/// reorders the window after the cursor key was chosen, any j >= 1).
+/// SIG_SCORE0: when the request's sort plan has no `_score` key the collectors are fed score 0,
+/// so top_hits reports score 0 -- modelled by `zero_scores`.
+fn explained_by_model(world: &World, page: &SearchResult, order: &SearchResult, from: usize, zero_scores: bool) -> bool {
+  let mut docs: Vec<MDoc> = Vec::new();
+  for h in order.hits.iter().skip(from) {
+    let Some(pos) = world.docs.iter().position(|d| d["_id"].as_str() == Some(h.doc_id.as_str())) else { return false };
+    docs.push(MDoc { pos, id: world.docs[pos]["_id"].as_str().unwrap(), doc: &world.docs[pos], score: if zero_scores { 0.0 } else { h.score } });
+  }
+  docs.sort_by_key(|d| d.pos);
+  let aggs = agg_trees();
+  for (name, agg) in aggs.as_object().unwrap() {
+    let Some(obs) = page.aggregations.get(name) else { return false };
+    let Ok(c) = canon(agg, &serde_json::to_value(obs).unwrap(), false) else { return false };
+    let Ok(e) = expect(agg, &docs, Flags::default()) else { return false };
+    if diff(&c, &e, "").is_some() {
+      return false;
+    }
+  }
+  true
+}
+
+struct Out {
+  fails: Vec<(Option<&'static str>, String, Value)>,
+  more: Vec<(Option<&'static str>, u64)>,
+  evals: u64,
+  worlds: u64,
+  cases: u64,
+  nontrivial: u64,
+  variant_errors: BTreeMap<String, u64>,
+  outcomes: BTreeSet<String>,
+}
+
+impl Out {
+  fn fail(&mut self, sig: Option<&'static str>, what: impl FnOnce() -> String, case: impl FnOnce() -> Value) {
+    if self.fails.iter().filter(|f| f.0 == sig).count() < 2 {
+      self.fails.push((sig, what(), case()));
+    } else {
+      match self.more.iter_mut().find(|m| m.0 == sig) {
+        Some(m) => m.1 += 1,
+        None => self.more.push((sig, 1)),
+      }
+    }
+  }
+}
+
+/// Compare every page of one variant with the reference; returns per-page verdicts
+/// (page index, signature, difference).
+fn judge_variant(world: &World, v: &Variant, pages: &[SearchResult], reference: &(Value, Value), orders: &[SearchResult]) -> Vec<(usize, Option<&'static str>, String)> {
+  let order = &orders[v.sort];
+  let sort_has_score = v.sort == 0 || sort_plans()[v.sort].as_array().map(|a| a.iter().any(|x| x["field"] == "_score")).unwrap_or(true);
+  let mut out = Vec::new();
+  for (k, pg) in pages.iter().enumerate() {
+    let (a, s) = observable(pg);
+    let d_aggs = diff(&a, &reference.0, "aggregations").or_else(|| diff(&reference.0, &a, "aggregations"));
+    let d_sug = diff(&s, &reference.1, "suggest").or_else(|| diff(&reference.1, &s, "suggest"));
+    match (d_aggs, d_sug) {
+      (None, None) => {}
+      (Some(d), None) => {
+        let sig = if k > 0 {
+          // a cursor is present: aggregations cover only the documents after the cursor position
+          let before: usize = pages[..k].iter().map(|p| p.hits.len()).sum();
+          let cands: Vec<usize> = if v.rescore { (1..order.hits.len()).collect() } else { vec![before] };
+          if cands.into_iter().any(|j| explained_by_model(world, pg, order, j, !sort_has_score)) { Some(SIG_CURSOR) } else { None }
+        } else if !sort_has_score && explained_by_model(world, pg, order, 0, true) {
+          Some(SIG_SCORE0)
+        } else {
+          None
+        };
+        out.push((k, sig, d));
+      }
+      (_, Some(d)) => out.push((k, None, d)),
+    }
+  }
+  out
+}
+
+fn check_corpus(shape_idx: &[usize], layouts: &[Vec<usize>], deleted: &[String], qs: &[QSpec], parsed: &[Parsed]) -> Out {
+  let mut out = Out { fails: vec![], more: vec![], evals: 0, worlds: 0, cases: 0, nontrivial: 0, variant_errors: BTreeMap::new(), outcomes: BTreeSet::new() };
+  let n = shape_idx.len();
+  let vars = variants(n);
+  for layout in layouts {
+    let world = mk_world(shape_idx, layout, deleted);
+    let idx = world.build();
+    let reader = idx.reader().expect("reader");
+    out.worlds += 1;
+    for (qi, q) in qs.iter().enumerate() {
+      let p = &parsed[qi];
+      let reference = match run_variant(&reader, p, &vars[0], n) {
+        Ok(r) => r,
+        Err(e) => {
+          out.fail(None, || format!("{} query={}: reference request failed: {e}", world.describe(), q.name), || json!({"world": world.to_json(), "query": q.to_json(), "variant": vars[0].to_json(1)}));
+          continue;
+        }
+      };
+      let matches = reference[0].hits.len();
+      if matches < 4 || reference[0].next_cursor.is_some() {
+        continue;
+      }
+      out.cases += 1;
+      let refobs = observable(&reference[0]);
+      // hit order (and scores) of each sort plan: the limit-n bm25 variant without flags
+      let mut orders: Vec<SearchResult> = Vec::new();
+      for s in 0..3 {
+        match run_variant(&reader, p, &Variant { sort: s, ..vars[0].clone() }, n) {
+          Ok(mut r) => orders.push(r.remove(0)),
+          Err(_) => orders.push(reference[0].clone()),
+        }
+      }
+      for v in &vars {
+        let pages = match run_variant(&reader, p, v, n) {
+          Ok(pg) => pg,
+          Err(e) => {
+            let key = format!("{} [rescore={} explain={} sort_plan={}]", e.chars().take(80).collect::<String>(), v.rescore, v.explain, v.sort);
+            *out.variant_errors.entry(key).or_default() += 1;
+            if e.starts_with("PANIC") {
+              out.fail(None, || format!("docs={} layout={:?} query={} variant={}: {e}", json!(world.docs), layout, q.name, v.to_json(1)), || json!({"engine": "inputmc-aggs-paging", "world": world.to_json(), "query": q.to_json(), "variant": v.to_json(1)}));
+            }
+            continue;
+          }
+        };
+        out.evals += pages.len() as u64;
+        if pages.len() >= 2 {
+          out.nontrivial += 1;
+        }
+        let bad = judge_variant(&world, v, &pages, &refobs, &orders);
+        if bad.is_empty() {
+          out.outcomes.insert(format!("same/{}pages", pages.len()));
+        }
+        for (k, sig, d) in bad {
+          out.outcomes.insert(format!("differs:{}", sig.unwrap_or("unexplained")));
+          out.fail(
+            sig,
+            || {
+              let before: Vec<&str> = pages[..k].iter().flat_map(|pg| pg.hits.iter().map(|h| h.doc_id.as_str())).collect();
+              format!("docs={} layout={:?} deleted={:?} query={} ({} matches) variant={} (documents on earlier pages: {:?}): differs from the reference (first page, limit {}, bm25) at {}", json!(world.docs), layout, deleted, q.name, matches, v.to_json(k + 1), before, n, d)
+            },
+            || json!({"engine": "inputmc-aggs-paging", "world": world.to_json(), "query": q.to_json(), "variant": v.to_json(k + 1)}),
+          );
+        }
+      }
+    }
+  }
+  out
+}
+
+fn replay_once(cs: &Value) -> Option<String> {
+  let world = World::from_json(&cs["world"]);
+  let q = QSpec::from_json(&cs["query"]);
+  let (v, page) = Variant::from_json(&cs["variant"]);
+  let p = parse(&q);
+  let n = world.docs.len();
+  let idx = world.build();
+  let reader = idx.reader().expect("reader");
+  let base = variants(n)[0].clone();
+  let reference = match run_variant(&reader, &p, &base, n) {
+    Ok(r) => r,
+    Err(e) => return Some(format!("reference request failed: {e}")),
+  };
+  let refobs = observable(&reference[0]);
+  let pages = match run_variant(&reader, &p, &v, n) {
+    Ok(pg) => pg,
+    Err(e) => return if e.starts_with("PANIC") { Some(e) } else { None },
+  };
+  let orders: Vec<SearchResult> = (0..3).map(|s| run_variant(&reader, &p, &Variant { sort: s, ..base.clone() }, n).map(|mut r| r.remove(0)).unwrap_or_else(|_| reference[0].clone())).collect();
+  judge_variant(&world, &v, &pages, &refobs, &orders).into_iter().find(|(k, _, _)| k + 1 == page).map(|(k, sig, d)| format!("page {} [{}]: {d}", k + 1, sig.unwrap_or("unexplained")))
+}
+
+pub fn run(ctx: &Ctx) -> i32 {
+  let mut rep = Reporter::new("C13", ctx.tier, "exploration");
+  let quick = ctx.tier.is_quick();
+  if let Some(path) = &ctx.replay {
+    rep.set_replaying(true);
+    return replay_with("C13", path, &replay_once);
+  }
+  let qs = queries();
+  let parsed: Vec<Parsed> = qs.iter().map(parse).collect();
+  // (corpus, layouts, deleted)
+  let mut plan: Vec<(Vec<usize>, Vec<Vec<usize>>, Vec<String>)> = Vec::new();
+  let few4 = vec![vec![4], vec![2, 2], vec![1, 3], vec![1, 1, 1, 1]];
+  let few5 = vec![vec![5], vec![2, 3], vec![4, 1], vec![1, 1, 1, 1, 1]];
+  let plan_text = if quick {
+    for c in multisets(8, 4) {
+      plan.push((c, few4.clone(), vec![]));
+    }
+    for c in multisets(4, 5) {
+      plan.push((c, vec![vec![2, 3]], vec![id_of(1)]));
+    }
+    "every multiset of 4 of 8 shapes x layouts {[4],[2,2],[1,3],[1,1,1,1]}; every multiset of 5 of 4 shapes, layout [2,3], document B deleted"
+  } else {
+    for c in corpora(6, 4, 4) {
+      plan.push((c, compositions(4), vec![]));
+    }
+    for c in multisets(10, 4) {
+      plan.push((c, few4.clone(), vec![]));
+    }
+    for c in multisets(8, 5) {
+      plan.push((c.clone(), few5.clone(), vec![]));
+      plan.push((c, vec![vec![2, 3], vec![5]], vec![id_of(1)]));
+    }
+    "every sequence of 4 of 6 shapes x all 8 layouts; every multiset of 4 of 10 shapes x 4 layouts; every multiset of 5 of 8 shapes x 4 layouts and x 2 layouts with document B deleted"
+  };
+  let deadline = if quick { 33.0 } else { 840.0 };
+  let (mut evals, mut worlds, mut cases, mut nontrivial, mut done) = (0u64, 0u64, 0u64, 0u64, 0usize);
+  let mut outcomes: BTreeSet<String> = BTreeSet::new();
+  let mut verrs: BTreeMap<String, u64> = BTreeMap::new();
+  let mut by_sig: BTreeMap<String, u64> = BTreeMap::new();
+  let mut timed_out = false;
+  for chunk in plan.chunks(64) {
+    if rep.elapsed_s() > deadline {
+      timed_out = true;
+      break;
+    }
+    let outs: Vec<Out> = chunk.par_iter().map(|(c, l, d)| check_corpus(c, l, d, &qs, &parsed)).collect();
+    done += chunk.len();
+    for o in outs {
+      // further cases of a class repeat the class's stored witness (a replay file must be usable)
+      let first: Vec<(Option<&'static str>, String, Value)> = o.more.iter().filter_map(|(sig, _)| o.fails.iter().find(|f| f.0 == *sig).cloned()).collect();
+      for (sig, what, case) in o.fails {
+        *by_sig.entry(sig.unwrap_or("unexplained").to_string()).or_default() += 1;
+        rep.fail(sig, &what, case);
+      }
+      for (sig, k) in o.more {
+        *by_sig.entry(sig.unwrap_or("unexplained").to_string()).or_default() += k;
+        let w = first.iter().find(|x| x.0 == sig);
+        for _ in 0..k {
+          match w {
+            Some(w) if rep.violations() < 6 => rep.fail(sig, &w.1, w.2.clone()),
+            _ => rep.fail(sig, "(further case of the same class in the same corpus)", json!({})),
+          }
+        }
+      }
+      evals += o.evals;
+      worlds += o.worlds;
+      cases += o.cases;
+      nontrivial += o.nontrivial;
+      outcomes.extend(o.outcomes);
+      for (k, v) in o.variant_errors {
+        *verrs.entry(k).or_default() += v;
+      }
+    }
+  }
+  rep.add_evals(evals);
+  rep.sample(json!({"queries": qs.iter().map(|q| q.to_json()).collect::<Vec<_>>(), "aggs": agg_trees(), "suggest": suggesters(), "variants_per_case": variants(4).len(), "sort_plans": sort_plans(), "rescore": rescore_json()}));
+  if outcomes.len() < 2 {
+    vcore::ev::machinery_failure("C13: fewer than two distinct outcomes observed");
+  }
+  let cov = vcore::cov! {
+    "distinct_nontrivial" => nontrivial,
+    "rule" => "case = (world, query with >= 4 matches); each case is evaluated under every variant (3 executions x 3 sort plans x {limit n, cursor walks with page size 1,2,3}, return_hits off, explain / profile / rescore on, alone and combined with walks); an evaluation is one page of one variant; non-trivial = a variant whose walk has at least 2 pages. Oracle: aggregations (7 trees) and suggest (2 suggesters) of every page equal those of the reference variant (floats 1e-9, scores 1e-5).",
+    "corpora_x_layout_sets" => done,
+    "planned" => plan.len(),
+    "plan" => plan_text,
+    "worlds" => worlds,
+    "cases_world_x_query_with_4plus_matches" => cases,
+    "variant_requests_rejected" => verrs,
+    "failure_classes" => by_sig,
+    "distinct_observed_outcomes" => outcomes.len(),
+    "cap_hit" => if timed_out { Some(format!("wall budget {deadline}s")) } else { None },
+    "exhaustive" => !timed_out,
+  };
+  rep.finish(cov, vec![
+    "both suggesters travel in every request (one request = 7 aggregation trees + 2 suggesters) instead of multiplying the variants by the suggest requests".into(),
+    "a variant whose request is rejected with an error (not a panic) is counted in variant_requests_rejected and not judged".into(),
+    "the aggregation trees avoid the options that C12 shows to be applied per segment, so that the C12 oracle can serve the classifier".into(),
+  ])
 }
